@@ -6,6 +6,8 @@
 import GojaModel.C04.LemmasDefine2
 import GojaModel.C04.LemmasSet
 import GojaModel.C04.LemmasOrder
+import GojaModel.C04.HistIntegrity
+import GojaModel.C04.Exotic
 namespace GojaModel.C04
 set_option linter.unusedSimpArgs false
 set_option linter.unusedVariables false
@@ -171,35 +173,110 @@ theorem propOrder_idxCount (ops : List POOp) :
       have h2 := hall a this.1
       rw [this.2] at h2; cases h2
 
-/-! ### essential invariants at the slot level (every mutation of a slot goes through ValidateAndApply / [[Delete]]) -/
+/-! ### essential invariants — slot level (every mutation of a slot goes through ValidateAndApply / [[Delete]]) -/
 
 /-- A non-configurable property keeps kind, enumerability, accessor functions; a non-writable one keeps its value;
 `writable` can only go from true to false — whatever descriptor is applied. -/
 theorem nonconfigurable_frozen_shape {V} [DecidableEq V] (undef : V) (p p' : SProp V) (d : Desc V) (ext : Bool)
     (hw : d.wellFormed = true) (hc : p.configurable = false)
-    (h : validateAndApply undef (some p) d ext = some p') : frozenStep p p' = true := by
-  obtain ⟨v, w, e, c, g, s⟩ := d
-  cases p with
-  | data pv pw pe pc =>
-    simp [SProp.configurable] at hc; subst hc
-    cases g <;> cases s <;> cases v <;> cases w <;>
-      simp [Desc.wellFormed, Desc.isAccessor, Desc.isData, Flag.isSet] at hw <;>
-      cases e <;> cases c <;> cases pw <;> cases pe <;>
-      simp [validateAndApply, Desc.isAccessor, Desc.isData, Desc.isGeneric, Flag.isSet, Flag.bool, Flag.getD,
-        SProp.configurable, SProp.enumerable, SProp.isAcc] at h <;>
-      (try (obtain ⟨h1, h2⟩ := h)) <;> (try subst h) <;> (try subst h2) <;> simp_all [frozenStep]
-  | acc pg ps pe pc =>
-    simp [SProp.configurable] at hc; subst hc
-    cases g <;> cases s <;> cases v <;> cases w <;>
-      simp [Desc.wellFormed, Desc.isAccessor, Desc.isData, Flag.isSet] at hw <;>
-      cases e <;> cases c <;> cases pe <;>
-      simp [validateAndApply, Desc.isAccessor, Desc.isData, Desc.isGeneric, Flag.isSet, Flag.bool, Flag.getD,
-        SProp.configurable, SProp.enumerable, SProp.isAcc] at h <;>
-      (try (obtain ⟨h1, h2⟩ := h)) <;> (try subst h) <;> (try subst h2) <;> simp_all [frozenStep]
+    (h : validateAndApply undef (some p) d ext = some p') : frozenStep p p' = true :=
+  vaa_frozen undef p p' d ext hw hc h
 
 /-- A non-extensible object gains no keys through [[DefineOwnProperty]]. -/
 theorem nonextensible_no_new_keys {V} [DecidableEq V] (undef : V) (d : Desc V) :
     validateAndApply undef (none : Option (SProp V)) d false = none := by
   simp [validateAndApply]
+
+/-! ### essential invariants — over ARBITRARY operation histories on the ordinary-object heap
+(`SOp`: define / set with any chain and receiver / delete / preventExtensions / setPrototypeOf / freeze / seal, on any
+objects of the heap, in any order, any length) -/
+
+/-- non-configurable ⇒ the property is still there after any history, with frozen shape (same kind, enumerability,
+accessor functions; `writable` only true → false; value fixed once non-writable). -/
+theorem hist_nonconfigurable_frozen_shape {V} [DecidableEq V] (undef : V) (h : Heap V) (ops : List (SOp V))
+    (hwf : ∀ op ∈ ops, op.wf = true) (o : Nat) (k : Key) (p : SProp V)
+    (hl : lookup (h o).props k = some p) (hc : p.configurable = false) :
+    ∃ p', lookup ((sRun undef h ops) o).props k = some p' ∧ frozenStep p p' = true :=
+  run_frozen undef ops h hwf o k p hl hc
+
+/-- non-configurable and non-writable ⇒ the very same data property after any history. -/
+theorem hist_nonwritable_value_fixed {V} [DecidableEq V] (undef : V) (h : Heap V) (ops : List (SOp V))
+    (hwf : ∀ op ∈ ops, op.wf = true) (o : Nat) (k : Key) (v : V) (e : Bool)
+    (hl : lookup (h o).props k = some (.data v false e false)) :
+    lookup ((sRun undef h ops) o).props k = some (.data v false e false) := by
+  obtain ⟨p', hl', hf⟩ := run_frozen undef ops h hwf o k _ hl rfl
+  cases p' with
+  | acc => simp [frozenStep] at hf
+  | data v' w' e' c' =>
+    simp only [frozenStep, Bool.and_eq_true, Bool.or_eq_true, Bool.not_eq_true', beq_iff_eq] at hf
+    obtain ⟨⟨hc, he⟩, hw⟩ := hf
+    rcases hw with hw | ⟨hw, hv⟩
+    · cases hw
+    · subst hc; subst he; subst hw; subst hv; exact hl'
+
+/-- non-extensible ⇒ after any history: still non-extensible, same prototype, no key that was not there before. -/
+theorem hist_nonextensible_no_new_keys_fixed_proto {V} [DecidableEq V] (undef : V) (h : Heap V) (ops : List (SOp V))
+    (o : Nat) (he : (h o).ext = false) :
+    ((sRun undef h ops) o).ext = false ∧ ((sRun undef h ops) o).proto = (h o).proto ∧
+      ∀ k, (lookup ((sRun undef h ops) o).props k).isSome = true → (lookup (h o).props k).isSome = true :=
+  run_nonext undef ops h o he
+
+/-- own keys after any history: unique, ordered (indices ascending, then strings, then symbols — `keysOrdered`), exactly
+the keys that have a descriptor, and the observable snapshot is internally consistent (`snapOk`). -/
+theorem hist_ownKeys_unique_ordered_consistent {V} [DecidableEq V] (undef : V) (h : Heap V) (hn : KeysNodup h)
+    (ops : List (SOp V)) (o : Nat) :
+    let props := ((sRun undef h ops) o).props
+    (∀ k, k ∈ ownKeys props ↔ (lookup props k).isSome = true) ∧ (ownKeys props).Nodup ∧ keysOrdered (ownKeys props) = true
+      ∧ snapOk ((sRun undef h ops) o).snap = true := by
+  intro props
+  have hn' := run_keysNodup undef ops h hn o
+  obtain ⟨a, b, c⟩ := ownKeys_spec props hn'
+  exact ⟨a, b, c, snapOk_of_nodup _ hn'⟩
+
+/-- The snapshot monitor used on the implementation's dumps is SOUND for the spec: every step of every well-formed
+operation on an ordinary-object heap passes it, on every object. -/
+theorem monitor_sound_on_spec_steps {V} [DecidableEq V] (undef : V) (h : Heap V) (hn : KeysNodup h) (op : SOp V)
+    (hwf : op.wf = true) (o : Nat) :
+    monitorStep (h o).snap ((sStep undef h op) o).snap = true ∧ snapOk ((sStep undef h op) o).snap = true :=
+  ⟨monitor_sound_step undef h hn op hwf o, snapOk_of_nodup _ (step_keysNodup undef h op hn o)⟩
+
+/-! ### freeze / seal / isFrozen / isSealed -/
+
+/-- Object.freeze / Object.seal of the heap model = SetIntegrityLevel as the spec writes it ([[PreventExtensions]], then
+one DefinePropertyOrThrow per own key with `{configurable:false}` / `{configurable:false, writable:false}`), none of
+which throws on an ordinary object; and TestIntegrityLevel holds afterwards. -/
+theorem freeze_seal_spec {V} [DecidableEq V] (undef : V) (h : Heap V) (o : Nat) (frozen : Bool)
+    (hn : (keysOf (h o).props).Nodup) :
+    integrityLoop undef frozen false (h o).props (ownKeys (h o).props) = some ((sSetIntegrity h o frozen) o).props
+    ∧ ((sSetIntegrity h o frozen) o).ext = false
+    ∧ sTestIntegrity ((sSetIntegrity h o frozen) o) frozen = true :=
+  ⟨setIntegrity_eq_spec_loop undef h o frozen hn, by simp [sSetIntegrity, upd_same], test_after_set h o frozen⟩
+
+/-- Object.isFrozen / Object.isSealed say exactly what 7.3.16 says; frozen implies sealed. -/
+theorem isFrozen_isSealed_spec {V} (o : Obj V) (frozen : Bool) :
+    (sTestIntegrity o frozen = true ↔
+      (o.ext = false ∧ ∀ k p, (k, p) ∈ o.props → p.configurable = false ∧ (frozen = true → p.isAcc = false → p.writable = false)))
+    ∧ (sTestIntegrity o true = true → sTestIntegrity o false = true) :=
+  ⟨testIntegrity_iff o frozen, frozen_is_sealed o⟩
+
+/-! ### exotic delta: String exotic object (10.4.3) -/
+
+/-- [[GetOwnProperty]] of a String exotic object = ordinary lookup on the object materialised with its frozen
+character-index properties in front (for every key, every string, every ordinary part that holds no character index). -/
+theorem stringExotic_getOwn_refines_ordinary {V} (base : Obj V) (chars : List V) (hb : NoCharIdx base chars) (k : Key) :
+    strGetOwn base chars k = lookup (strMat base chars).props k :=
+  stringExotic_getOwn_aux base chars hb k
+
+/-- [[DefineOwnProperty]] of a String exotic object (IsCompatiblePropertyDescriptor on character indices, ordinary define
+otherwise) = OrdinaryDefineOwnProperty on the materialised object: same boolean, same resulting object; and the ordinary
+part still holds no character index (so the statement applies along every history of defines). -/
+theorem stringExotic_define_refines_ordinary {V} [DecidableEq V] (undef : V) (base : Obj V) (chars : List V)
+    (hb : NoCharIdx base chars) (k : Key) (d : Desc V) (hw : d.wellFormed = true) :
+    (match validateAndApply undef (lookup (strMat base chars).props k) d (strMat base chars).ext with
+      | some p => ({ (strMat base chars) with props := put (strMat base chars).props k p }, true)
+      | none => (strMat base chars, false))
+      = (strMat (strDefine undef base chars k d).1 chars, (strDefine undef base chars k d).2)
+    ∧ NoCharIdx (strDefine undef base chars k d).1 chars :=
+  stringExotic_define_aux undef base chars hb k d hw
 
 end GojaModel.C04
